@@ -73,6 +73,11 @@ def judge(col: common.Collector, kind: str, layout: str, cls: str, fn: Any, args
                           dict(detail, steps=sc.n, budget=budget, bytes=blob))
     else:
         o = codecrun.call(fn, *args)
+    if o.exc_type == "NonTermination":
+        col.count("non-termination")
+        col.violation(("does-not-terminate", kind, layout),
+                      dict(detail, bytes=blob, byte_class=cls, problem=str(o.exc)))
+        return
     col.ev()
     outcome = "returned" if o.ok else o.exc_family
     col.nontrivial((kind, layout, cls, outcome))
